@@ -555,8 +555,8 @@ fn random_prime(rng: &mut StdRng, bits: u32) -> Uint {
 fn run_sieve(args: &Args) -> i32 {
     let seed = arg_u64(args, "seed", 1);
     let thorough = arg_str(args, "tier", "quick") == "thorough";
-    let max_rel = arg_u64(args, "max-rel", if thorough { 100000 } else { 120 }) as usize;
-    let max_raw = arg_u64(args, "max-raw", if thorough { 400 } else { 40 }) as usize;
+    let max_rel = arg_u64(args, "max-rel", if thorough { 100000 } else { 400 }) as usize;
+    let max_raw = arg_u64(args, "max-raw", if thorough { 400 } else { 100 }) as usize;
     let mut out = Out::create(arg_str(args, "out", "trace.ndjson"));
     let mut rng = rng_for(seed, "c11-sieve");
     // (bits, algorithm, use_double, threads, large_factor override: small inputs use no large primes by default)
